@@ -326,7 +326,8 @@ func check(c Case, o *vf.Obs) error {
 			o.Class("certificate-checked")
 		}
 	case "s SATISFIABLE", "s OPTIMUM FOUND":
-		if optim != (ss[0] == "s OPTIMUM FOUND") {
+		decisionOPB := c.Kind == "opb" && c.Cost == nil // no objective: either spelling is truthful
+		if !decisionOPB && optim != (ss[0] == "s OPTIMUM FOUND") {
 			return fmt.Errorf("status line %q for a %s file%s", ss[0], c.Kind, ctxt())
 		}
 		if !feasible {
@@ -344,7 +345,7 @@ func check(c Case, o *vf.Obs) error {
 		if !feasibleOf(m) {
 			return fmt.Errorf("the v line is not a model of the file%s", ctxt())
 		}
-		if optim {
+		if optim && !(decisionOPB && ss[0] == "s SATISFIABLE") {
 			os_ := get("o ")
 			if len(os_) == 0 {
 				return fmt.Errorf("no o line before 's OPTIMUM FOUND'%s", ctxt())
